@@ -146,16 +146,26 @@ func init() {
 				orders = append(orders, attrOrder(strings.Split(e, "*")[0]))
 			}
 		}
-		if err := ibs.SignAndAddNewSignature(pk, parseAttrs(args[3])); err != nil {
-			return "err"
+		nBefore := len(block.SignatureStack)
+		serr := ibs.SignAndAddNewSignature(pk, parseAttrs(args[3]))
+		if serr != nil && len(block.SignatureStack) == nBefore {
+			orders = orders[1:] // nothing was added: the entries are the original ones
 		}
 		ents := []string{}
 		for i, s := range block.SignatureStack {
-			ents = append(ents, showAttrsSorted(s.SignatureAttributes, orders[i])+"*"+toHex(s.Signature))
+			var ord []string
+			if i < len(orders) {
+				ord = orders[i]
+			}
+			ents = append(ents, showAttrsSorted(s.SignatureAttributes, ord)+"*"+toHex(s.Signature))
 		}
 		st2 := "."
 		if len(ents) > 0 {
 			st2 = strings.Join(ents, "+")
+		}
+		if serr != nil {
+			// the state the caller is left with after the error (must be the state before the call)
+			return fmt.Sprintf("err %s:%s:%s", toHex(block.Magic), toHex(block.Version), st2)
 		}
 		cb, err := block.CborBytes()
 		if err != nil {
